@@ -29,6 +29,9 @@ def main(tier):
     timeout = 20000 if tier == 'quick' else 90000
     res = run_programs('contracts.c17', c17.PROGRAMS, timeout_ms=timeout)
     absorb(chk, res, c17.replay, prefix='C17/')
+    from contracts import c11
+    res2 = run_programs('contracts.c11', [('p_add_layers', a) for a in ((2, 45), (2, 46), (2, 50), (0, 12), (1, 30), (3, 50))], timeout_ms=timeout)
+    absorb(chk, res2, c11.replay, prefix='C17/')
     vac = [r['program'] for r in res if not r['obligations']]
     if vac:
         chk.notes.append('programs with no obligation: %s' % vac)
